@@ -58,13 +58,21 @@ def rot_min(face):
 
 
 # ------------------------------------------------------------------------------------------ surface atoms
-def atom_T(face):
+def atom_T(face, existing=None):
+    """existing: set of frozenset({p,q}) = sides already present in the mesh being refined. A diagonal that is
+    already an edge of the mesh cannot be used (the result would have an edge with three faces); if both are
+    taken only a fan is left."""
     k = len(face)
     if k == 3:
         return [[tuple(face)]]
     if k == 4:
         A, B, C, D = face
-        return [[(A, B, D), (B, C, D)], [(A, B, C), (A, C, D)]]
+        alts = []
+        if not existing or frozenset((B, D)) not in existing:
+            alts.append([(A, B, D), (B, C, D)])
+        if not existing or frozenset((A, C)) not in existing:
+            alts.append([(A, B, C), (A, C, D)])
+        return alts or atom_FAN(face)
     return atom_FAN(face)
 
 
@@ -118,30 +126,35 @@ def leaf_count(face_len, atoms):
     return len(lens)
 
 
-def collect_points(face, atoms, acc):
-    """every point appearing in any admissible refinement of the face"""
+def _alts(atom, face, existing):
+    return atom_T(face, existing) if atom == "T" else ATOMS[atom](face)
+
+
+def collect_points(face, atoms, acc, existing=None):
+    """every point appearing in any admissible refinement of the face (existing: only for the first atom,
+    which acts on faces of the mesh being refined; later atoms act on fresh faces)"""
     if not atoms:
         acc.update(face)
         return
-    for alt in ATOMS[atoms[0]](face):
+    for alt in _alts(atoms[0], face, existing):
         for sub_face in alt:
             collect_points(sub_face, atoms[1:], acc)
 
 
-def first_refinement(face, atoms):
+def first_refinement(face, atoms, existing=None):
     faces = [tuple(face)]
-    for a in atoms:
-        faces = [g for f in faces for g in ATOMS[a](f)[0]]
+    for i, a in enumerate(atoms):
+        faces = [g for f in faces for g in _alts(a, f, existing if i == 0 else None)[0]]
     return faces
 
 
-def match(face, atoms, observed):
+def match(face, atoms, observed, existing=None):
     """keys of the observed faces forming one admissible refinement of `face`, or None.
     Sub-faces are matched independently (their refinements are disjoint)."""
     if not atoms:
         k = rot_min(tuple(face))
         return [k] if k in observed else None
-    for alt in ATOMS[atoms[0]](face):
+    for alt in _alts(atoms[0], face, existing):
         used = []
         for sub_face in alt:
             r = match(sub_face, atoms[1:], observed)
@@ -189,11 +202,12 @@ def validate_surface_step(before_P, before_Pf, before_F, kind, targets, obs_Pf, 
     tset = None if targets is None else set(targets)
     per_face = [atoms if (tset is None or i in tset) else [] for i in range(len(before_F))]
     bfaces = [tuple(before_P[v] for v in f) for f in before_F]
+    existing = set(frozenset((f[i], f[(i + 1) % len(f)])) for f in bfaces for i in range(len(f)))
     # ---- documented element counts (independent of which alternative is taken)
-    want_nf = sum(leaf_count(len(f), a) for f, a in zip(before_F, per_face))
+    want_nf = sum(len(first_refinement(f, a, existing)) for f, a in zip(bfaces, per_face))
     pts = set()
     for f, a in zip(bfaces, per_face):
-        pts.update(p for g in first_refinement(f, a) for p in g)
+        pts.update(p for g in first_refinement(f, a, existing) for p in g)
     want_new = len(pts - set(before_P))
     if len(obs_F) != want_nf:
         raise StepFailure("counts", "face_count", {"got": len(obs_F), "want": want_nf})
@@ -207,7 +221,7 @@ def validate_surface_step(before_P, before_Pf, before_F, kind, targets, obs_Pf, 
     cand = set()
     for f, a in zip(bfaces, per_face):
         if a:
-            collect_points(f, a, cand)
+            collect_points(f, a, cand, existing)
     cand -= set(before_P)
     tol = tolerance(before_Pf)
     newP, taken = [], {}
@@ -232,7 +246,7 @@ def validate_surface_step(before_P, before_Pf, before_F, kind, targets, obs_Pf, 
         raise StepFailure("refinement_pattern", "duplicate_face", {})
     used = []
     for i, (f, a) in enumerate(zip(bfaces, per_face)):
-        r = match(f, a, kset)
+        r = match(f, a, kset, existing)
         if r is None:
             raise StepFailure("refinement_pattern", "face_not_refined_as_documented",
                               {"face_index": i, "face": list(before_F[i]), "atoms": a})
@@ -294,6 +308,17 @@ def area_by_direction(Pex, faces):
 
 def total_area(by_dir):
     return sum(sqrt(float(dot(N, N))) for N in by_dir.values()) / 2
+
+
+def quad_with_taken_diagonal(faces, targets=None):
+    """indices of the quads (among targets) one of whose diagonals is already a side of a face of the mesh"""
+    sides = F.undirected_edges(faces)
+    out = []
+    for i, f in enumerate(faces):
+        if len(f) == 4 and (targets is None or i in targets):
+            if tuple(sorted((f[0], f[2]))) in sides or tuple(sorted((f[1], f[3]))) in sides:
+                out.append(i)
+    return out
 
 
 def surface_topology(faces, n):
